@@ -217,6 +217,13 @@ class FileTerm(FnCase):
     def ensures(self, q, ret):
         return self.expect(self, q, self.chain)
 
+    def e2e(self):
+        # a failing real file round trip, if the end-to-end scenarios of the same property find one (adds an input to a refuted pipeline shape)
+        from ..bounded import io as bio
+        chk = {'csv': 'check_c18', 'json': 'check_c19', 'parquet': 'check_c20'}.get(self.name.split('.')[0])
+        if chk is None: return None
+        return (getattr(bio, chk)({}).get('failures') or [None])[0]
+
 
 def names(chain):
     return [c[0] for c in chain]
@@ -396,11 +403,44 @@ def parquet_cases():
     return out
 
 
+_STATE_E2E = {'compression': 'check_c16', 'codec': 'check_c17', 'json': 'check_c19', 'csv': 'check_c18', 'parquet': 'check_c20', 'framing': 'check_c15', 'io': 'check_c19'}
+
+
+class SubscriptionState(FnCase):
+    """frame condition for the stream operators of one module: event handlers assign subscription-local state only (a variable bound
+    in the operator factory would be shared by every subscription of the same operator object: second export writes no header, a second
+    reader starts inside the previous one's state)"""
+    internal_representation = True     # a hoisted variable may be harmless (a cached constant): counts only with a failing second subscription
+
+    def __init__(self, module, group):
+        self.module = module; self.group = group
+        self.name = f'{module.split("rxsci.")[-1]}/handlers_assign_subscription_local_state_only'
+
+    def setup(self, eng, p):
+        from .helpers import ast_lambda_none
+        from ..effects import state_outside_subscription
+        self.eng = eng
+        self.found = state_outside_subscription(eng.world.module(self.module).tree)
+        return Closure(ast_lambda_none(), None, self.module, 'noop'), [], {}
+
+    def ensures(self, q, ret):
+        return [('no_handler_state_in_the_operator_factory', BoolVal(len(self.found) == 0))]
+
+    def e2e(self):
+        from ..bounded import io as bio
+        r = getattr(bio, _STATE_E2E[self.group])({})
+        f = (r.get('failures') or [None])[0]
+        return dict(f, shared_state=[f'{h}: nonlocal {v} bound in {b}()' for h, v, b in self.found]) if f else None
+
+
 def unit_wrappers(opts):
     which = opts.get('which', 'all')
     groups = {'compression': compression_cases, 'codec': codec_cases, 'json': json_cases, 'csv': csv_cases, 'parquet': parquet_cases}
     cases = []
+    mods = {'compression': ['rxsci.compression.z', 'rxsci.compression.zstd'], 'codec': ['rxsci.data.codec'], 'json': ['rxsci.container.json', 'rxsci.io.file'],
+            'csv': ['rxsci.container.csv', 'rxsci.io.file'], 'parquet': ['rxsci.container.parquet']}
     for k, f in groups.items():
         if which in ('all', k):
             cases += f()
+            cases += [SubscriptionState(m, k) for m in mods[k]]
     return run_cases(f'wrappers.{which}', cases, opts)
